@@ -53,8 +53,22 @@ away"), for the replies that carry a checked serial:
   invariant (`LSysInv`, Lemmas/Client/ListenerAgreement.lean) relates, per live connection, the broker's listener
   table to the client's listener map *after* the client will have handled what is on its way to it.
 
-Partial (see DESIGN.md): the same for channels (items, capacity, claimed / closed ends, claim replies), calls and
-subscriptions (`NotSupported`) is the remaining part of the composed-system invariant; it is not a theorem here. It is checked by the runs of `harness/src/bin/sys.rs`
+* `channel_messages_never_refused` — channels: in every interleaving, whatever the broker has put into a client's
+  queue about channels — replies to create / close / claim, "the other end was claimed", "the other end was closed",
+  items, capacity — is not refused when the client gets to it: a claim reply is of the kind of the claim, an end that
+  is told "claimed" is pending, one that is told "closed" exists and has not been told before, items and capacity
+  reach established ends only. This covers close racing claim, closes by flow-control violations, and the
+  clean-up of a connection that ends. The invariant (`CSysInv`, Lemmas/Client/ChannelAgreement.lean): for every
+  live connection and every end it has claimed in the broker's channel table, the client's map of that end —
+  after the messages on their way — says `pending` while the other end is unclaimed and `established` once it is
+  claimed; every channel request on its way has its entry; ends are owned by connections that exist. It is
+  preserved by `remove_channel_end` (whoever calls it), the five channel handlers (exact characterisations),
+  connection clean-up and the work loop; everything else neither touches the table nor emits a channel message
+  (Lemmas/Broker/ChanOut.lean).
+
+Partial (see DESIGN.md): the same for calls and subscriptions (`NotSupported` is never sent to a client that asked
+only when it may) is the remaining part of the composed-system invariant; it is not a theorem here. The `assert!`s
+of the client about its own maps (a new cookie is not in the map yet) are not covered by these theorems either. It is checked by the runs of `harness/src/bin/sys.rs`
 (real broker, 2-4 real clients, PRNG-chosen schedule, FIFO sizes 1..16 and unbounded), whose transport traces
 are replayed through this model. Lost wake-ups, fairness of `select` and back-pressure are runtime behaviour
 no theorem about this model can exhibit; the same runs check them (quiescence implies completion).
@@ -62,6 +76,7 @@ no theorem about this model can exhibit; the same runs check them (quiescence im
 import Aldrin.Lemmas.Client.Serial
 import Aldrin.Lemmas.Client.Agreement
 import Aldrin.Lemmas.Client.ListenerAgreement
+import Aldrin.Lemmas.Client.ChannelAgreement
 
 namespace Aldrin.Client
 open Aldrin.Broker
@@ -253,6 +268,14 @@ theorem listener_messages_never_refused (es : List SysEv) (s : Sys) (hr : sysRun
     (hL : isL m = true) : onRecv l.mon m ≠ .unexpected :=
   listener_head_accepted (sysRun_linv es {} s hr SysInv_init LSysInv_init).2 hl hd hL
 
+open Aldrin.System in
+/-- In every interleaving of the composed system, the next message of a client, if it is about channels, is not
+refused. -/
+theorem channel_messages_never_refused (es : List SysEv) (s : Sys) (hr : sysRun {} es = some s)
+    (c : ConnId) (l : Link) (hl : s.links c = some l) (m : Rsp) (rest : List Rsp) (hd : l.down = m :: rest)
+    (hC : isC m = true) : onRecv l.mon m ≠ .unexpected :=
+  channel_head_accepted (sysRun_cinv es {} s hr SysInv_init CSysInv_init).2 hl hd hC
+
 namespace SystemExample
 open Aldrin.System
 
@@ -266,6 +289,18 @@ example : (sysRun {} hist).bind (fun s => (s.links 1).map (·.down)) = some [.sy
 example : (sysRun {} (hist ++ [.clientHandles 1, .clientHandles 1, .clientHandles 2])).isSome = true := by decide
 /-- the assumption is needed: a second `sync 7` while the first is open cannot be sent -/
 example : (sysRun {} (hist ++ [.clientSends 1 (.sync 7)])).isSome = false := by decide
+
+/-- client 1 creates a channel with its sender end, client 2 claims the receiver with capacity 2, client 1 sends an item
+and closes its end while client 2 adds capacity: every message is handled by both clients -/
+def channelHist : List SysEv :=
+  [.attach 1 20, .attach 2 20, .clientSends 1 (.createChannel 0 .sender 0), .brokerHandles 1, .clientHandles 1,
+   .clientSends 2 (.claimChannelEnd 0 0 .receiver 2), .brokerHandles 2, .clientHandles 2, .clientHandles 1,
+   .clientSends 1 (.sendItem 0 [1]), .clientSends 1 (.closeChannelEnd 1 0 .sender), .clientSends 2 (.addChannelCapacity 0 1),
+   .brokerHandles 1, .brokerHandles 2, .brokerHandles 1]
+
+example : (sysRun {} channelHist).bind (fun s => (s.links 2).map (·.down)) =
+    some [.itemReceived 0 [1], .channelEndClosed 0 .sender] := by decide
+example : (sysRun {} (channelHist ++ [.clientHandles 2, .clientHandles 2, .clientHandles 1, .clientHandles 1])).isSome = true := by decide
 
 /-- a listener is created, given a filter, started for what exists (one object of client 2), stopped; every message
 is handled by client 1 -/
